@@ -263,3 +263,49 @@ func decodeWrapped(b []byte) (Body, error) {
 	}
 	return decodeBody(raw)
 }
+
+// fieldSet says which of the three body fields a (possibly partial) body carries.
+// Bodies created by PatchTreasures with the default empty seed only hold the
+// fields their ops wrote.
+type fieldSet struct{ St, Ow, N bool }
+
+var allFields = fieldSet{true, true, true}
+
+// decodePartialBody accepts a map holding any subset of {status, owner, n} with the expected kinds.
+func decodePartialBody(raw []byte) (Body, fieldSet, error) {
+	v, rest, err := mpDecode(raw)
+	if err != nil {
+		return Body{}, fieldSet{}, err
+	}
+	if len(rest) != 0 {
+		return Body{}, fieldSet{}, fmt.Errorf("msgpack: %d trailing bytes", len(rest))
+	}
+	m, ok := v.(map[string]any)
+	if !ok {
+		return Body{}, fieldSet{}, errors.New("body is not a map")
+	}
+	var out Body
+	var has fieldSet
+	for k, x := range m {
+		switch k {
+		case "status":
+			if out.Status, ok = x.(string); !ok {
+				return Body{}, has, fmt.Errorf("status is not a string: %v", m)
+			}
+			has.St = true
+		case "owner":
+			if out.Owner, ok = x.(string); !ok {
+				return Body{}, has, fmt.Errorf("owner is not a string: %v", m)
+			}
+			has.Ow = true
+		case "n":
+			if out.N, ok = x.(int64); !ok {
+				return Body{}, has, fmt.Errorf("n is not an integer: %v", m)
+			}
+			has.N = true
+		default:
+			return Body{}, has, fmt.Errorf("unexpected field %q: %v", k, m)
+		}
+	}
+	return out, has, nil
+}
